@@ -212,7 +212,7 @@ def _limits_impl():
 
 def run_batch(binary, lines, timeout=600):
     """Feeds the lines to one service process; restarts after a crash or a hang; returns one Ans per line.
-    After the first hang the remaining lines get a short time limit, after the third the rest is given up
+    After the first hang the remaining lines get a short time limit, after the second the rest is given up
     (answered 'timeout'): a hanging implementation must not stall the whole check."""
     out = []
     i = 0
@@ -220,10 +220,10 @@ def run_batch(binary, lines, timeout=600):
     hangs = 0
     while i < n:
         chunk = lines[i:]
-        if hangs >= 3:
+        if hangs >= 2:
             out.extend(Ans('timeout') for _ in chunk)
             break
-        tmo = timeout if hangs == 0 else min(timeout, 120)
+        tmo = timeout if hangs == 0 else min(timeout, 60)
         try:
             p = subprocess.run([binary], input='\n'.join(chunk) + '\n', stdout=subprocess.PIPE, stderr=subprocess.DEVNULL,
                                text=True, timeout=tmo, preexec_fn=(_limits_model if binary == MODEL_BIN else _limits_impl))
